@@ -29,6 +29,13 @@ Theorem C12_bufreader_eq_file : forall d ops, readonly ops = true ->
 Proof. exact Proof.C12.bufreader_eq_file. Qed.
 Print Assumptions C12_bufreader_eq_file.
 
+(* two handles on one blob (Store.Create + Store.Open) against one file opened twice; each op names
+   its handle; every Seek lands inside the extent as seen at that moment *)
+Theorem C12_memfile_two_handles_eq_file : forall cap ops, in_extent2 ops = true ->
+  snd (mrun2 true (minit2 cap) ops) = snd (prun2 pinit2 ops).
+Proof. exact Proof.C12.memfile_two_handles_eq_file. Qed.
+Print Assumptions C12_memfile_two_handles_eq_file.
+
 (* ---- beyond the statement ---- *)
 (* BufferReadWriter agrees with the file for every seek, also past the end (about the model only:
    outside `in_extent` the correspondence with the Go code is not compared) *)
@@ -120,6 +127,11 @@ Theorem C12_check_sound_bufreader : forall d ops, readonly ops = true ->
 Proof. exact Proof.C12.check_sound_bufreader. Qed.
 Print Assumptions C12_check_sound_bufreader.
 
+Theorem C12_check_sound_two_handles : forall cap ops,
+  C12_check2 ops (snd (mrun2 true (minit2 cap) ops)) (snd (prun2 pinit2 ops)) = true.
+Proof. exact Proof.C12.check_sound_two_handles. Qed.
+Print Assumptions C12_check_sound_two_handles.
+
 (* ---- the code before the fix: a zero-length positional write past the end grows the buffer ---- *)
 Theorem C12_zero_len_write_refuted :
   exists cap ops, in_extent ops = true /\
@@ -163,6 +175,16 @@ Example C12_nonvacuous_readonly :
   readonly ops = true /\
   snd (rrun (rinit [1;2;3;4]%N) ops) =
     [mko 2 [1;2] 2 4; mko 3 [] 3 4; mko 1 [4] 4 4; mko 3 [2;3;4] 4 4; mko 4 [] 4 4]%N.
+Proof. vm_compute. split; reflexivity. Qed.
+
+(* handle 1 grows the blob past its capacity; handle 0 sees the new bytes and keeps its position *)
+Example C12_nonvacuous_two_handles :
+  let ops := [(false, Write [1;2;3]); (true, Read 2); (true, Write [9]); (true, WriteAt [7] 8);
+              (false, Read 1); (false, Seek 0 SeekStart); (false, Read 12)]%N in
+  in_extent2 ops = true /\
+  snd (mrun2 true (minit2 2) ops) =
+    [mko 3 [] 3 3; mko 2 [1;2] 2 3; mko 1 [] 3 3; mko 1 [] 3 9; mko 1 [0] 4 9; mko 0 [] 0 9;
+     mko 9 [1;2;9;0;0;0;0;0;7] 9 9]%N.
 Proof. vm_compute. split; reflexivity. Qed.
 
 (* the refutation witnesses, as the driver replays them *)
